@@ -4,9 +4,11 @@ import (
 	"encoding/json"
 	"fmt"
 	"os"
+	"reflect"
 	"sort"
 	"strings"
 
+	"sigs.k8s.io/kustomize/api/filters/nameref"
 	"sigs.k8s.io/kustomize/api/hasher"
 	"sigs.k8s.io/kustomize/api/krusty"
 	"sigs.k8s.io/kustomize/api/resmap"
@@ -133,6 +135,15 @@ type c03Layer struct {
 	Namespace string   `json:"namespace"`
 	Entries   []string `json:"entries"` // resources: entries in order ("res:<id>" or "dir:<layer index>")
 	Gens      []string `json:"gens"`    // generated resource ids, in order
+	// JSON6902 patches of the `patches:` field that set or remove the WHOLE annotations map of a resource
+	// (the build annotations carrying the rename history must survive them)
+	Patches []c03Patch `json:"patches,omitempty"`
+}
+
+type c03Patch struct {
+	ID   string `json:"id"`   // target resource
+	Op   string `json:"op"`   // add | replace | remove (remove is followed by an add that restores the user annotations)
+	Kind string `json:"kind"` // target kind
 }
 
 type c03Build struct {
@@ -559,8 +570,78 @@ func c03GenBuild(rng *Rng, rules []krusty.VerifC03Rule) *c03Build {
 			}
 		}
 	}
+	if rng.Chance(30) {
+		c03AddAnnotationPatches(g)
+	}
 	c03Render(b, rng)
 	return b
+}
+
+// c03AddAnnotationPatches: an outer kustomization patches (JSON6902, `patches:` field) the whole
+// /metadata/annotations map of a referent that an inner kustomization has already renamed, or of a generated
+// referent that still awaits its hash.  The value keeps the user annotations (tracer, annotation-path
+// reference fields) so nothing observable changes but the rename history is at stake.
+func c03AddAnnotationPatches(g *c03Gen) {
+	b, rng := g.b, g.rng
+	var targets []*c03Res
+	seen := map[string]bool{}
+	for _, e := range b.Edges {
+		if t := b.res(e.To); t != nil && !seen[t.ID] {
+			seen[t.ID] = true
+			targets = append(targets, t)
+		}
+	}
+	n := 0
+	for _, t := range targets {
+		if n >= 2 {
+			break
+		}
+		// candidate kustomizations: proper ancestors of the referent's layer; its own layer when it is generated
+		var where []int
+		if t.Generated {
+			where = append(where, t.Layer)
+		}
+		for p := b.Layers[t.Layer].Parent; p >= 0; p = b.Layers[p].Parent {
+			where = append(where, p)
+		}
+		if len(where) == 0 || !rng.Chance(70) {
+			continue
+		}
+		at := where[rng.Intn(len(where))]
+		b.Layers[at].Patches = append(b.Layers[at].Patches,
+			c03Patch{ID: t.ID, Kind: t.Kind, Op: rng.Pick([]string{"add", "replace", "remove"})})
+		n++
+	}
+}
+
+// c03PatchEntry renders one annotation patch as an entry of the `patches:` field.
+func c03PatchEntry(b *c03Build, p c03Patch) map[string]interface{} {
+	value := map[string]interface{}{c03Tracer: p.ID, "verif.c03/patched": "yes"}
+	if t := b.res(p.ID); t != nil && !t.Generated {
+		if md, ok := t.Doc["metadata"].(map[string]interface{}); ok {
+			if an, ok := md["annotations"].(map[string]interface{}); ok {
+				for k, v := range an {
+					value[k] = v
+				}
+			}
+		}
+	}
+	var ops []interface{}
+	switch p.Op {
+	case "remove":
+		ops = append(ops, map[string]interface{}{"op": "remove", "path": "/metadata/annotations"},
+			map[string]interface{}{"op": "add", "path": "/metadata/annotations", "value": value})
+	default:
+		ops = append(ops, map[string]interface{}{"op": p.Op, "path": "/metadata/annotations", "value": value})
+	}
+	raw, err := json.Marshal(ops)
+	if err != nil {
+		panic(err)
+	}
+	return map[string]interface{}{
+		"target": map[string]interface{}{"kind": p.Kind, "annotationSelector": c03Tracer + "=" + p.ID},
+		"patch":  string(raw),
+	}
 }
 
 // c03AddTwins: in a build with two sibling bases, copy a referent and a referrer of it from one base into
@@ -803,6 +884,13 @@ func c03GenBindingBuild(rng *Rng, rules []krusty.VerifC03Rule) *c03Build {
 			}
 			used[k] = true
 			sa := sas[k]
+			if rng.Chance(35) {
+				// a subject without namespace (User / Group carry none) ahead of the account: the accounts
+				// listed after it must still be found in their own namespaces
+				who := rng.Pick([]string{"User", "Group"})
+				subjects = append(subjects, map[string]interface{}{"kind": who, "apiGroup": "rbac.authorization.k8s.io",
+					"name": rng.Pick([]string{"alice", "auditors", "system:masters"})})
+			}
 			subjects = append(subjects, map[string]interface{}{"kind": "ServiceAccount", "name": sa.Name, "namespace": sa.Namespace})
 			b.Edges = append(b.Edges, c03Edge{From: a.ID, To: sa.ID, Addr: []interface{}{"subjects", len(subjects) - 1, "name"}, Old: sa.Name,
 				RulePath: "subjects", Target: "ServiceAccount", Mapping: true, HasSubNs: true, SubjNs: sa.Namespace})
@@ -999,6 +1087,13 @@ func c03Render(b *c03Build, rng *Rng) {
 		if l.Namespace != "" {
 			k["namespace"] = l.Namespace
 		}
+		if len(l.Patches) > 0 {
+			var ps []interface{}
+			for _, p := range l.Patches {
+				ps = append(ps, c03PatchEntry(b, p))
+			}
+			k["patches"] = ps
+		}
 		b.Files[l.Dir+"/kustomization.yaml"] = c03Yaml(k)
 	}
 }
@@ -1135,6 +1230,16 @@ func c03RulesTerm(rules []krusty.VerifC03Rule) string {
 	return "(CTable [" + strings.Join(rows, "; ") + "])"
 }
 
+// c03RefCtor: the implementation under test either has the repair nameref.ResolvedFields (a field reached by
+// the rows of several kinds is settled by the first row that resolves it) or not; the observation is compared
+// with the matching model (Res/NameRefResolved.v or Res/NameRef.v).
+func c03RefCtor() string {
+	if _, ok := reflect.TypeOf(nameref.Filter{}).FieldByName("Resolved"); ok {
+		return "CRefR"
+	}
+	return "CRef"
+}
+
 // CRef term from a before/after pair of resource maps (after == nil when the transformer failed)
 func c03RefTerm(before resmap.ResMap, cls string, after resmap.ResMap) (string, bool) {
 	vals := map[string]bool{}
@@ -1167,7 +1272,7 @@ func c03RefTerm(before resmap.ResMap, cls string, after resmap.ResMap) (string, 
 			as = append(as, "(Some "+t+")")
 		}
 	}
-	return fmt.Sprintf("(CRef %s %s [%s] %s [%s])", c03CsTerm(pairs), c03NonstrTerm(vals),
+	return fmt.Sprintf("(%s %s %s [%s] %s [%s])", c03RefCtor(), c03CsTerm(pairs), c03NonstrTerm(vals),
 		strings.Join(rs, "; "), cls, strings.Join(as, "; ")), true
 }
 
@@ -1791,7 +1896,17 @@ func c03Cases(r *Run, b *c03Build, o c03Outcome) {
 	}
 	st := o.stages
 	// ---- CBook: layering -> identity + history before FixBackReferences
-	if st.Stage == "" || st.Stage == "accumulate" || st.Stage == "hash" || st.Stage == "nameref" {
+	patched := false
+	for _, l := range b.Layers {
+		if len(l.Patches) > 0 {
+			patched = true
+		}
+	}
+	if patched {
+		// PatchTransformer is outside the rename model (it also calls StorePreviousId on every target, which
+		// records the current id once more): such builds are judged by the CRef case and the laws only
+		r.Count("case", "book:not-modelled(patches)")
+	} else if st.Stage == "" || st.Stage == "accumulate" || st.Stage == "hash" || st.Stage == "nameref" {
 		vals := map[string]bool{}
 		pairs := map[[2]string]bool{}
 		lt, ok := c03LayerTerm(b, 0, vals, pairs)
